@@ -3,4 +3,4 @@ package main
 
 import "verifharness/h2rig"
 
-func main() { h2rig.Main("c10_prop_ok", "c10_failures") }
+func main() { h2rig.Main("c10_failures") }
